@@ -692,7 +692,9 @@ func (w *trWorld) update(rep *trReplica, cl trCall) {
 				if st := w.trSymptoms(); st != "" {
 					tag = st
 				}
-				c.Oracle("%sC07 %s on %s: before=%s after=%s expected=%s", tag, trEncCall(cl), rep.name, refBefore, got, exp)
+				if trArg("orc", "") != "c01" { // the single-replica reference check is C07's statement, not C01's
+					c.Oracle("%sC07 %s on %s: before=%s after=%s expected=%s", tag, trEncCall(cl), rep.name, refBefore, got, exp)
+				}
 			}
 		}
 		return nil
@@ -760,7 +762,9 @@ func (w *trWorld) indexPath(rep *trReplica, t *crdt.Tree, idx int) {
 			if st := w.trSymptoms(); st != "" {
 				tag = st
 			}
-			c.Oracle("%sC07 index<->path on %s: index %d -> path %s -> index %d", tag, rep.name, idx, trEncPath(path), back)
+			if trArg("orc", "") != "c01" {
+				c.Oracle("%sC07 index<->path on %s: index %d -> path %s -> index %d", tag, rep.name, idx, trEncPath(path), back)
+			}
 		}
 	}); rec != nil {
 		out = "err"
